@@ -1,4 +1,4 @@
-"""SimSync family: C18 (simulated cameras deliver fresh, increasing, trigger-gated frames).  DESIGN 6.18.
+"""SimSync family: C18 (simulated cameras deliver fresh, increasing, trigger-gated frames; stop unblocks).  DESIGN 6.18.
 
 prove -> build -> corpus -> correspond (lock-step: real simulated.camera.c + HAL camera.c under vplatform against the
 extracted SimSync model, on the schedule the implementation actually took) -> independent property oracle over the
@@ -38,15 +38,44 @@ def build(ctx):
 
 
 # ----------------------------------------------------------------------------- generator
+def after_rejected_set(rng, cur):
+    """What the controller does right after a set the device rejected (op b).  The HAL state is AwaitingConfiguration:
+    stop / trigger are HAL no-ops, start is refused until a successful set (e / d) re-arms the camera.
+    -> (ops, trigger enable afterwards, a new run was started)"""
+    x = rng.random()
+    if x < 0.15:
+        return "", cur, False
+    if x < 0.35:
+        return "X", cur, False
+    if x < 0.45:
+        return "T", cur, False
+    if x < 0.55:
+        return "S", cur, False                      # refused: not Armed
+    if x < 0.65:
+        return rng.choice(["TX", "XT", "SX", "XS", "bX", "TS"]), cur, False
+    if rng.random() < 0.5:
+        cur = not cur
+    return rng.choice(["", "S", "X"]) + ("e" if cur else "d") + "S", cur, True
+
+
 def gen_script(rng, nruns, long_pauses):
-    """A controller script of `nruns` complete runs and a caller script.  Every run is closed by X."""
+    """A controller script of `nruns` complete runs and a caller script.  Every run is closed by X (or, before that, by
+    a rejected set b, which makes the HAL stop the running camera)."""
     ctl = []
     e0 = rng.random() < 0.5
     cur = e0
     ngets = 0
+    awaiting = False                               # HAL state AwaitingConfiguration (after b): S is refused
     for r in range(nruns):
+        if rng.random() < 0.08:
+            ctl.append("b")                        # rejected set while stopped (or before the first start)
+            awaiting = True
         # between runs: sometimes reconfigure the trigger
         x = rng.random()
+        if awaiting and x >= 0.65 and rng.random() < 0.8:
+            x = 0.4                                # re-arm (mostly): otherwise the whole run is refused
+        if x < 0.65:
+            awaiting = False
         if x < 0.35:
             cur = not cur
             ctl.append("e" if cur else "d")
@@ -65,14 +94,37 @@ def gen_script(rng, nruns, long_pauses):
             ctl.append("S")                        # start while running: refused by the harness guard
         nbody = rng.randint(0, 10)
         gated = cur
+        # a run that is ended by a rejected set instead of X: often a gated run with no trigger at all, so that a
+        # pending get_frame can only be released by the stop performed inside the rejected set
+        pb = rng.choice([0.0, 0.0, 0.04, 0.10])
+        if pb > 0 and not awaiting and rng.random() < 0.5:
+            for _ in range(rng.randint(0, 3)):
+                ctl.append("p" * rng.randint(1, 6 if long_pauses else 2))
+            tail, cur, restarted = after_rejected_set(rng, cur)
+            ctl.append("b" + tail)
+            awaiting = not restarted
+            gated = cur
+            if not restarted:
+                nbody = rng.randint(0, 2)
         for _ in range(nbody):
             x = rng.random()
+            if not awaiting and rng.random() < pb:
+                tail, cur, restarted = after_rejected_set(rng, cur)
+                ctl.append("b" + tail)
+                if not restarted:
+                    awaiting = True
+                    if rng.random() < 0.7:
+                        break
+                else:
+                    gated = cur
+                continue
             if gated:
                 if x < 0.45:
                     ctl.append("T")
                 elif x < 0.50:
                     cur = not cur
                     ctl.append("e" if cur else "d")
+                    awaiting = False
                 else:
                     ctl.append("p" * rng.randint(1, 6 if long_pauses else 2))
             else:
@@ -81,6 +133,7 @@ def gen_script(rng, nruns, long_pauses):
                 elif x < 0.18:
                     cur = not cur
                     ctl.append("e" if cur else "d")
+                    awaiting = False
                 else:
                     ctl.append("p" * rng.randint(1, 6 if long_pauses else 2))
         ctl.append("X")
@@ -99,13 +152,20 @@ def gen_script(rng, nruns, long_pauses):
 def normalise(ctl):
     """Close the last run: the controller must not finish with the camera running (a gated run without triggers would
     leave the caller blocked for a legitimate reason, which the deadlock detector cannot tell from a hang)."""
-    running = False
+    st = "armed"                       # the HAL state the harness leaves the camera in before the script starts
     for o in ctl:
         if o == "S":
-            running = True
+            if st == "armed":
+                st = "running"
         elif o == "X":
-            running = False
-    return ctl + ("X" if running else "")
+            if st == "running":
+                st = "armed"
+        elif o == "b":                 # rejected set: stops a running camera, then AwaitingConfiguration
+            st = "await"
+        elif o in "ed":                # accepted set: Armed unless Running
+            if st != "running":
+                st = "armed"
+    return ctl + ("X" if st == "running" else "")
 
 
 def case_line(c):
@@ -281,23 +341,34 @@ def oracle(case, pi):
     nrun = 0
     enable = bool(case["e0"])
     facts = {"deliveries": 0, "gated_deliveries": 0, "shutdown_exits": 0, "runs": 0, "restarts_with_delivery": 0,
-             "runs_with_delivery": 0, "pending_at_stop": 0, "triggers": 0, "gaps": 0, "straddling_deliveries": 0}
+             "runs_with_delivery": 0, "pending_at_stop": 0, "triggers": 0, "gaps": 0, "straddling_deliveries": 0,
+             "rejected_sets": 0, "rejected_sets_while_running": 0, "pending_at_rejected_set": 0, "pending_at_stop_return": 0,
+             "released_after_stop_return": 0, "starts_refused": 0, "camera_steps_after_stop": 0}
     marks = []          # (step index, ndeliv, trig, gated) at each delivery, for the ghost cross-check
     in_get = False
     get_run = 0         # number of starts that had returned when the current get_frame was entered
+    # The camera as the HAL reports it to the controller: started by a start that returned Device_Ok, stopped again when a
+    # STOP-PERFORMING op returns: X (camera_stop), or b (a set the device rejects: camera_set's error branch stops the camera).
+    started = False
+    stopped_by = None   # (step, text) of the return of the op that stopped the camera last, while no later start has returned
+    held = None         # a get_frame that was pending when that op returned and has not returned since: (step, text)
     for k, (tid, kind, label, sp, evs) in enumerate(pi["steps"]):
         if tid >= 3 and run is not None:
             run["sstep"] += 1          # steps of ANY thread other than main / controller / caller since this start
+        if tid >= 3 and stopped_by is not None:
+            facts["camera_steps_after_stop"] += 1      # observation only (a thread may legitimately outlive stop)
         if tid == 2 and kind == "dev" and label == "op:G":
             in_get = True
             get_run = nrun
         for ev in evs:
             w = ev.split()
             if tid == 1:
-                if w[0] == "B" and w[1] == "X" and run is not None and not run["stopping"]:
+                if w[0] == "B" and w[1] in "Xb" and run is not None and not run["stopping"]:
                     run["stopping"] = True
                     if in_get:
-                        facts["pending_at_stop"] += 1
+                        facts["pending_at_stop" if w[1] == "X" else "pending_at_rejected_set"] += 1
+                elif w[0] == "R" and w[1] == "S" and len(w) > 2 and w[2] == "skip":
+                    facts["starts_refused"] += 1
                 elif w[0] == "B" and w[1] in "ed" and run is not None and not run["closed"]:
                     # triggering is not "enabled for the whole run" if it is switched (or was) off during the run
                     if w[1] == "d" or not enable:
@@ -305,6 +376,9 @@ def oracle(case, pi):
                 elif w[0] == "R" and w[1] in "ed" and len(w) > 2 and w[2] == "rc=0":
                     enable = w[1] == "e"
                 elif w[0] == "R" and w[1] == "S" and len(w) > 2 and w[2] == "rc=0":
+                    started = True
+                    stopped_by = None
+                    held = None        # a call still inside get_frame continues as a call of the new run: not judged
                     nrun += 1
                     facts["runs"] += 1
                     run = {"ids": [], "trig": 0, "trig_begun": 0, "nall": 0, "gated": enable, "sstep": 0, "stopping": False, "closed": False}
@@ -317,9 +391,32 @@ def oracle(case, pi):
                     facts["triggers"] += 1
                 elif w[0] == "R" and w[1] == "X" and run is not None:
                     run["closed"] = True
+                elif w[0] == "R" and w[1] == "b" and len(w) > 2 and w[2] != "rc=0":
+                    facts["rejected_sets"] += 1
+                    if started:
+                        facts["rejected_sets_while_running"] += 1
+                    if run is not None:
+                        run["closed"] = True
+                if w[0] == "R" and started and (w[1] == "X" or (w[1] == "b" and len(w) > 2 and w[2] != "rc=0")):
+                    # the op that stops the camera has returned to the controller
+                    started = False
+                    stopped_by = (k, "%s (%s, step %d)" % ("camera_stop" if w[1] == "X" else "camera_set with settings the device rejects",
+                                                            ev, k))
+                    if in_get:
+                        held = stopped_by
+                        facts["pending_at_stop_return"] += 1
             elif tid == 2 and w[0] == "R" and w[1] == "G":
                 in_get = False
                 f = dict(x.split("=") for x in w[2:])
+                if held is not None:
+                    facts["released_after_stop_return"] += 1
+                held = None
+                if f["deliv"] == "1" and stopped_by is not None:
+                    v.append(("C18-delivery-after-stop",
+                              "get_frame handed out a frame (hardware_frame_id %s) at step %d although %s had returned to the controller "
+                              "and no start has been issued since: the camera goes on streaming after the HAL reported it stopped "
+                              "(a call pending at stop must leave through the shutdown exit: Device_Ok, buffer and info untouched)"
+                              % (f["id"], k, stopped_by[1]), k))
                 if f["deliv"] == "0":
                     if f["rc"] == "0":
                         facts["shutdown_exits"] += 1
@@ -366,7 +463,12 @@ def oracle(case, pi):
                                   "run %d (gated): hardware_frame_id %d although only %d external triggers were executed in this run "
                                   "(the id counts the frames generated in this run, one per trigger)" % (nrun, fid, run["trig_begun"]), k))
                 marks.append((k, run["nall"], run["trig"], run["gated"]))
-    if pi["outcome"] == "deadlock":
+    if pi["outcome"] in ("deadlock", "steplimit") and held is not None and in_get:
+        v.append(("C18-pending-get-frame-not-released-by-stop",
+                  "a get_frame that was pending when %s returned to the controller is still blocked when the case ends (%s; no start was "
+                  "issued in between, so nothing but that stop could release it): stop must unblock a pending frame call.  %s"
+                  % (held[1], pi["outcome"].upper(), " | ".join(pi["stuck"][:8])), len(pi["steps"])))
+    elif pi["outcome"] == "deadlock":
         v.append(("C18-deadlock", "DEADLOCK: no thread is enabled although some have not finished (stop did not return or a pending "
                   "get_frame was never released): " + " | ".join(pi["stuck"][:8]), len(pi["steps"])))
     elif pi["outcome"] == "steplimit":
@@ -422,7 +524,7 @@ def replay_obj(ctx, case, pi, msg):
             "stdin_line": case_line(exact),
             "how": "echo '<stdin_line>' | ASAN_OPTIONS=detect_leaks=0 .build/%s/h_simsync   (built by this check from the repository under test; "
                    "threads: 0 main, 1 controller, 2 caller, 2+k streamer of run k; ops: S start X stop T trigger e/d set trigger on/off "
-                   "p pause G get_frame W wait-running)" % ctx.prop,
+                   "p pause b set rejected by the device (binning 3; stops a running camera, then AwaitingConfiguration) G get_frame W wait-running)" % ctx.prop,
             "trace": ["%d %s %s%s%s" % (t, k, l, " spurious" if sp else "", "".join("  <" + e + ">" for e in evs)) for t, k, l, sp, evs in pi["steps"]][-80:],
             "outcome": pi["outcome"], "stuck": pi["stuck"][:10]}
 
@@ -449,7 +551,8 @@ def fold(ctx, orac, impl, case, pi, pm, origin):
     ctx.case(case_line(case) + " " + ",".join(map(str, pi["tids"])), nontrivial=nontriv)
     ctx.count("origin:" + origin)
     for k in ("deliveries", "gated_deliveries", "shutdown_exits", "runs", "restarts_with_delivery", "pending_at_stop", "triggers", "gaps",
-              "straddling_deliveries"):
+              "straddling_deliveries", "rejected_sets", "rejected_sets_while_running", "pending_at_rejected_set", "pending_at_stop_return",
+              "released_after_stop_return", "starts_refused", "camera_steps_after_stop"):
         if facts[k]:
             ctx.count("obs:" + k, facts[k])
     ctx.count("steps", len(pi["steps"]))
@@ -551,6 +654,12 @@ EXH_SCRIPTS = [
     ("deSX", "G", 1),               # switched off (fires the trigger) and on again while stopped, then a gated run without trigger
     ("SXdeSTX", "WGG", 1),
     ("STTX", "GG", 1),
+    # a set the device rejects (binning 3): the HAL stops the running camera inside camera_set, then AwaitingConfiguration
+    ("SbX", "G", 1),                # gated, no trigger: only the stop inside the rejected set can release the call
+    ("SbX", "G", 0),                # un-gated: the call either gets a frame before the set or leaves through the shutdown exit
+    ("SbS", "GG", 1),               # start refused after the rejected set (not re-armed): no second run
+    ("bSeSTX", "WG", 1),            # rejected while stopped; start refused; a successful set re-arms; a gated run
+    ("SbTeSX", "GG", 1),            # trigger swallowed while AwaitingConfiguration must not count in the next gated run
 ]
 
 
@@ -560,7 +669,9 @@ def run(ctx):
     orac, impl = build(ctx)
     thorough = ctx.tier == "thorough"
     ctx.rule = ("controller scripts of 1..3 complete runs (start, triggers / pauses / trigger re-configuration, stop; plus HAL no-op calls "
-                "between runs) against a caller script of get_frame / wait-running ops, on the real simulated.camera.c (Empty kind, 4x2 u8) "
+                "between runs; plus sets the device rejects (binning 3) while Running -- gated with a pending get_frame and no trigger, or "
+                "un-gated -- while stopped and before the first start, followed by stop / trigger / a refused start / a re-arming set and "
+                "a new start) against a caller script of get_frame / wait-running ops, on the real simulated.camera.c (Empty kind, 4x2 u8) "
                 "behind the real HAL camera.c under the vplatform scheduler: uniform random schedules from seeds (with and without "
                 "spurious wake-ups), and every schedule prefix of depth %d over fixed small scripts; the extracted model replays the schedule "
                 "the implementation took, step by step (thread, scheduling-point kind, object, events = return codes and delivered ids). "
@@ -599,10 +710,11 @@ def run(ctx):
         cases.append(c)
         if k < 3:
             ctx.sample({"controller": c["ctl"], "caller": c["cal"], "e0": e0, "seed": c["seed"], "spur": c["spur"]})
-    process(ctx, orac, impl, cases, "random")
+    # the small fixed scripts first: a failure found on one of them gives the shortest replay
     ex = exhaustive_cases(EXH_SCRIPTS, 9 if thorough else 6, 3)
     ctx.extra["exhaustive_prefix_cases"] = len(ex)
     process(ctx, orac, impl, ex, "exhaustive-prefix")
+    process(ctx, orac, impl, cases, "random")
 
     # ---- thorough: independent re-check of the compiled proofs with coqchk
     if thorough and os.path.exists(os.path.join(ctx.coqdir, "Properties_%s.vo" % ctx.prop)):
